@@ -491,10 +491,32 @@ fn exec_on(envs: &[Arc<Env>], e: usize, cs: &mut ClientState, op: &Op, record_tr
                 }
             }
             match diverged {
-                Some((i, a, b)) => Outcome::Err(format!(
-                    "burst diverged at call {}: sampler with history {} vs sampler without history {}",
-                    i, a, b
-                )),
+                Some((i, a, b)) => {
+                    // who is to blame: the history of `s` (C17) or the restore that
+                    // produced the checker (C18)?  A freshly BUILT sampler has neither
+                    // a history nor a serialisation behind it: if it agrees with `s`
+                    // at the diverging point, the restored checker is the odd one out.
+                    let mut r2 = crate::util::SplitMix::new(*seed);
+                    let mut pt: Vec<u64> = Vec::new();
+                    for _ in 0..=i {
+                        pt = (0..dim).map(|_| r2.unit_open().to_bits()).collect();
+                    }
+                    let restore_to_blame = match sampler::build(&env.spec) {
+                        sampler::Built::Ok(fresh) => fresh.sample_x(&pt, ed, st).same(&s.sample_x(&pt, ed, st)),
+                        _ => false,
+                    };
+                    if restore_to_blame {
+                        Outcome::Err(format!(
+                            "burst differs after restore at call {}: sampler {} (a freshly built one agrees) vs sampler restored from its image {}",
+                            i, a, b
+                        ))
+                    } else {
+                        Outcome::Err(format!(
+                            "burst diverged at call {}: sampler with history {} vs sampler without history {}",
+                            i, a, b
+                        ))
+                    }
+                }
                 None => Outcome::Image(h),
             }
         }
@@ -868,6 +890,15 @@ pub fn run_scenario(sc: &Scenario, opts: &RunOpts) -> RunReport {
                                 expected: "every sample equal to the one a sampler without history gives".into(),
                                 observed: m.clone(),
                             });
+                        } else if m.starts_with("burst differs after restore") {
+                            violations.push(Violation {
+                                class: "sample-differs-after-restore".into(),
+                                client: ci,
+                                op: oi,
+                                op_tag: "burst".into(),
+                                expected: "every sample of the sampler restored from the image equal to the never-serialised sampler's".into(),
+                                observed: m.clone(),
+                            });
                         }
                     }
                 }
@@ -1154,6 +1185,15 @@ pub fn run_scenario(sc: &Scenario, opts: &RunOpts) -> RunReport {
                         op: oi,
                         op_tag: "burst".into(),
                         expected: "every sample equal to the one a sampler without history gives".into(),
+                        observed: m.clone(),
+                    });
+                } else if m.starts_with("burst differs after restore") && exp.outcome.same(&r.outcome) {
+                    violations.push(Violation {
+                        class: "sample-differs-after-restore".into(),
+                        client: ci,
+                        op: oi,
+                        op_tag: "burst".into(),
+                        expected: "every sample of the sampler restored from the image equal to the never-serialised sampler's".into(),
                         observed: m.clone(),
                     });
                 }
